@@ -185,6 +185,51 @@ def run_case(item):
             phase, mal = st['phase'], st['mal']
             holds = phase in ('in_transaction', 'in_copy')
             h = None
+            if phase == 'queued':
+                # the canary holds the only server connection; the sender's request is queued behind it; the sender's socket
+                # is reset; the canary finishes.  Afterwards the canary must be served as before, also for the very
+                # statement text the sender had asked to prepare.
+                text_x = 'SELECT 4242 + %d' % item['id']
+                try:
+                    h = Client(w.port, name='H', timeout=3.0)
+                    if mal == 'reset_while_batch_with_local_reply_queued':
+                        h.extended([W.Parse('old', 'SELECT 7'), W.Sync()], timeout=3.0)
+                    k.query('BEGIN')
+                    if mal == 'reset_while_query_queued':
+                        h.send(W.Q('SELECT 1 ' + h.tag()))
+                    elif mal == 'reset_while_batch_queued':
+                        h.send(W.Parse('hq', text_x) + W.Bind('', 'hq') + W.Execute() + W.Sync())
+                    else:
+                        h.send(W.Parse('hq', text_x) + W.Close('S', 'old') + W.Sync())
+                    time.sleep(0.15)
+                    h.abort()
+                    time.sleep(0.1)
+                    k.query('COMMIT')
+                    time.sleep(0.3)
+                except OSError:
+                    pass
+                d = canary(w, k, 0)
+                if d['ok']:
+                    rep = k.extended([W.Parse('kq%d' % k.serial, text_x), W.Bind('', 'kq%d' % k.serial), W.Execute(), W.Sync()], timeout=5.0)
+                    if rep.end != 'Z' or rep.errors:
+                        d = dict(d, ok=False, why='extended request for the text the sender had queued: ' + rep.brief()[:100])
+                if not d['ok']:
+                    rec['after_ok'] = False
+                    rec['why'] += ' after[%s/%s]: %s (%.1fs)' % (phase, mal, d['why'], d['secs'])
+                    k.close()
+                    try:
+                        k = Client(w.port, name='K', timeout=5.0)
+                    except OSError:
+                        break
+                if not d['own']:
+                    rec['after_own'] = False
+                    rec['why'] += ' foreign result after[%s/%s]' % (phase, mal)
+                if not d['clean']:
+                    rec['after_clean'] = False
+                    rec['why'] += ' after[%s/%s]: %s' % (phase, mal, d['why'])
+                if not w.alive():
+                    break
+                continue
             try:
                 if phase == 'pre_startup':
                     s = socket.create_connection(('127.0.0.1', w.port), timeout=3)
@@ -301,6 +346,8 @@ def check_c11(prop, tier, seed):
         for cs in cases:
             idx += 1
             items.append({'id': idx, 'steps': [cs], 'seed': seed * 11 + idx, 'cache': [0, 8][idx % 2], 'parser': idx % 3 == 0})
+            if cs['phase'] == 'queued':
+                items[-1]['cache'] = 8
             if any(x in cs['mal'] for x in ('parse', 'bind', 'describe', 'close', 'execute', 'statement_name')):
                 # decoders of the extended protocol are only used with statement caching on: run these both ways
                 idx += 1
@@ -309,7 +356,8 @@ def check_c11(prop, tier, seed):
     for j in range(npairs):
         idx += 1
         a, b = rng.choice(cases), rng.choice(cases)
-        items.append({'id': idx, 'steps': [a, b], 'seed': seed * 11 + idx, 'cache': [0, 8][idx % 2], 'parser': idx % 3 == 0})
+        items.append({'id': idx, 'steps': [a, b], 'seed': seed * 11 + idx, 'parser': idx % 3 == 0,
+                      'cache': 8 if 'queued' in (a['phase'], b['phase']) else [0, 8][idx % 2]})
     results = core.run_parallel(run_case, items, workers=14)
     recs = []
     for it, r in zip(items, results):
